@@ -85,6 +85,35 @@ impl Codec {
             }
         }
     }
+    /// `Decoder` the way its documentation allows: every character is pushed whatever the
+    /// earlier pushes returned ("it is okay to push more data after the first error"), and
+    /// `finalize` has to report what went wrong. Returns (result of finalize, some push failed).
+    fn lib_decoder_pushing_on(self, t: &str) -> (Result<Vec<u8>, String>, bool) {
+        let mut failed = false;
+        match self {
+            Codec::B16 => {
+                let mut d = base16::Decoder::<Vec<u8>>::new();
+                for c in t.chars() {
+                    failed |= d.push(c).is_err();
+                }
+                (d.finalize().map_err(|e| e.to_string()), failed)
+            }
+            Codec::B32 => {
+                let mut d = base32::Decoder::<Vec<u8>>::new_hex();
+                for c in t.chars() {
+                    failed |= d.push(c).is_err();
+                }
+                (d.finalize().map_err(|e| e.to_string()), failed)
+            }
+            Codec::B64 => {
+                let mut d = base64::Decoder::<Vec<u8>>::new();
+                for c in t.chars() {
+                    failed |= d.push(c).is_err();
+                }
+                (d.finalize().map_err(|e| e.to_string()), failed)
+            }
+        }
+    }
     /// The scanner-side converter, with the text cut into tokens at `cuts`.
     fn lib_conv(self, t: &str, cuts: &[usize]) -> Result<Vec<u8>, String> {
         fn drive<C: ConvertSymbols<EntrySymbol, std::io::Error>>(mut c: C, t: &str, cuts: &[usize]) -> Result<Vec<u8>, String> {
@@ -141,6 +170,7 @@ fn check_text(c: &mut Ctx, fam: &str, idx: u64, codec: Codec, text: &str, rng: &
     let res = c.guard(fam, idx, || json!({"codec": codec.name(), "text": text}), || {
         let a = codec.lib_dec(text);
         let b = codec.lib_decoder(text);
+        let b2 = codec.lib_decoder_pushing_on(text);
         let n = text.chars().count();
         // tokenisations: none, every position, two random ones
         let all: Vec<usize> = (1..n).collect();
@@ -160,11 +190,21 @@ fn check_text(c: &mut Ctx, fam: &str, idx: u64, codec: Codec, text: &str, rng: &
         } else {
             vec![codec.lib_conv(text, &[]), codec.lib_conv(text, &all), codec.lib_conv(text, &r1), codec.lib_conv(text, &r2)]
         };
-        (a, b, convs)
+        (a, b, convs, b2)
     });
-    let Some((a, b, convs)) = res else { return };
+    let Some((a, b, convs, b2)) = res else { return };
     judge(c, fam, idx, codec, "decode", text, &a, &want);
     judge(c, fam, idx, codec, "Decoder", text, &b, &want);
+    // pushing on after an error: finalize reports the failure, and otherwise agrees with stopping at once
+    if b2.1 && b2.0.is_ok() {
+        let rp = c.replay_of(fam, idx, json!({"codec": codec.name(), "text": text}));
+        c.violation(&format!("decoder-forgets-error:{}", codec.name()), &format!("{} Decoder: a push failed on {:?}, the remaining characters were pushed as documented, and finalize returned Ok({})", codec.name(), text, hex(b2.0.as_ref().unwrap())), rp);
+    } else if !b2.1 && b2.0.as_ref().ok() != b.as_ref().ok() {
+        let rp = c.replay_of(fam, idx, json!({"codec": codec.name(), "text": text}));
+        c.violation(&format!("decoder-pushing-on-differs:{}", codec.name()), &format!("{} Decoder gives another result when every push result is looked at only at the end ({:?})", codec.name(), text), rp);
+    } else if b2.1 {
+        c.count("decoder_errors_remembered", 1);
+    }
     for (i, v) in convs.iter().enumerate() {
         judge(c, fam, idx, codec, "SymbolConverter", text, v, &want);
         if i > 0 && *v != convs[0] && (v.is_ok() || convs[0].is_ok()) {
